@@ -160,6 +160,16 @@ def perms(E, cls, nmax):
             if r is not None:
                 E.check(r.offsets == d.offsets and teq(r.cod, d.cod),
                         key + ":permute-differs")
+            if cls == 'monoidal' and n:
+                # permuting the outputs of a box whose domain differs
+                from discopy import monoidal
+                f = monoidal.Box('f', monoidal.Ty('in'), dom)
+                try:
+                    r = f.permute(*perm)
+                    E.check(r.offsets[1:] == d.offsets and teq(r.cod, d.cod),
+                            key + ":permute-of-a-box-differs")
+                except Exception as e:
+                    E.fail(key + ":permute-of-a-box-refused", info=repr(e))
         perm_semantics(E, cls, d, pos, key)
     finally:
         hook.enable(False)
